@@ -14,5 +14,6 @@ CONSTANTS
   GiveUp = FALSE
   PreCheckClosed = FALSE
   NilPacketSock = FALSE
+  CloseWaits = FALSE
 INVARIANTS DumpInv
 CHECK_DEADLOCK FALSE
